@@ -66,6 +66,7 @@ theorem fields_match : Generated.structFields = fieldNames := by decide
 theorem clear_preserved_match : Generated.clearPreserved = clearKeeps := by decide
 theorem clear_shape_match :
     Generated.clearMemset = true ∧ Generated.clearCallsDelete0 = true ∧ Generated.clearResetTest = true ∧
+    Generated.clearTornDownTest = true ∧
     Generated.clearRatioKeptOnlyWithReset = true ∧ Generated.clearGuardsSetRatio = true ∧
     Generated.delete0Memset = true ∧ Generated.createCallocs = true ∧ Generated.fatalWipesThenSetsError = true ∧
     Generated.resetOnClear = resetBit := by decide
@@ -170,21 +171,36 @@ def clearBase (tmp : Soxr σ) : Soxr σ :=
     shared := false, resamplers := none, control_block := tmp.control_block, deinterleave := tmp.deinterleave,
     interleave := tmp.interleave, channel_ptrs := false, clips := 0, seed := 0, flushing := 0 }
 
-/-- `soxr_clear` as it is in /repo now (after the F18 repair, commit 76fe472):
+/-- torn down by `fatal_error` (`soxr_delete0` zeroed the struct, control block included, then the error was stored):
+    `tmp.error && !tmp.control_block[9]` -/
+def TornDown (p : Soxr σ) : Prop := p.error ≠ 0 ∧ p.control_block = 0
+
+instance (p : Soxr σ) : Decidable (TornDown p) := inferInstanceAs (Decidable (p.error ≠ 0 ∧ p.control_block = 0))
+
+/-- `soxr_clear` past its first test (after the F18 repair, commit 76fe472):
     `if (!RESET_ON_CLEAR) return 0;  p->io_ratio = tmp.io_ratio;  return (p->num_channels && p->io_ratio != 0)? soxr_set_io_ratio(…) : 0;` -/
-def clear (W : Eng σ) (p : Soxr σ) : Soxr σ × Nat :=
+def clearLive (W : Eng σ) (p : Soxr σ) : Soxr σ × Nat :=
   let p0 := clearBase p
   if hasReset p0.q_spec then
     let p1 : Soxr σ := { p0 with io_ratio := p.io_ratio }
     if p1.num_channels ≠ 0 ∧ p1.io_ratio ≠ 0 then setIoRatio W p1 p.io_ratio 0 else (p1, 0)
   else (p0, 0)
 
-/-- HISTORICAL: `soxr_clear` as first pinned (before 76fe472):
+/-- `soxr_clear` as it is in /repo now (commit b5a678f, F40): an object a fatal error has torn down is returned unchanged
+    with its error — nothing is left to restart from; any other object (an ordinary sticky error included) is rebuilt -/
+def clear (W : Eng σ) (p : Soxr σ) : Soxr σ × Nat :=
+  if TornDown p then (p, p.error) else clearLive W p
+
+namespace Historical
+
+/-- `soxr_clear` as first pinned (before 76fe472):
     `return (p->q_spec.flags & RESET_ON_CLEAR)? soxr_set_io_ratio(p, tmp.io_ratio, 0) : 0;` — the ratio reached the struct
     only through `soxr_set_io_ratio`, which refuses before storing it while the channel count is unknown (finding F18) -/
 def clearOld (W : Eng σ) (p : Soxr σ) : Soxr σ × Nat :=
   let p0 := clearBase p
   if hasReset p0.q_spec then setIoRatio W p0 p.io_ratio 0 else (p0, 0)
+
+end Historical
 
 /-- footprint of every other API call on the object (process / output / set_error …) -/
 structure Dyn (p p' : Soxr σ) : Prop where
@@ -300,9 +316,10 @@ def fftView {τ : Type} (T : FftTables τ) (g : Globals) (n : Nat) : List τ :=
 structure DSt where
   objs : List (String × Soxr Unit) := []
 
-/-- the executable engine side: creation succeeds, VR control blocks (token 5) take ratio changes -/
+/-- the executable engine side: creation succeeds (unless the spec is marked bad), VR control blocks (token 5) take ratio changes -/
 def dEng : Eng Unit :=
-  { create := fun _ _ _ _ _ => .ok (), hasSetRatio := fun cb => cb == 5, setRatio := fun e _ _ => e, same := fun a b => a == b }
+  { create := fun _ _ q _ _ => if q.rest = 99 then .error 7 else .ok (),   -- rest = 99: a spec `resampler_create` rejects
+    hasSetRatio := fun cb => cb == 5, setRatio := fun e _ _ => e, same := fun a b => a == b }
 
 def nat (s : String) : Nat := s.toNat?.getD 0
 
@@ -314,7 +331,7 @@ def setObj (d : DSt) (name : String) (p : Soxr Unit) : DSt :=
 
 def getObj (d : DSt) (name : String) : Option (Soxr Unit) := (d.objs.find? (fun x => x.1 = name)).map (·.2)
 
-/-- `c10 new X <ch> <ratioTok> <reset> <vr>` | `c10 X setfn <m>` | `c10 X clear` | `c10 X ratio <tok>` | `c10 X dyn` | `c10 X fields` | `c10 del X` -/
+/-- `c10 new X <ch> <ratioTok> <reset> <vr> [bad]` | `c10 X setch <n>` | `c10 X setfn <m>` | `c10 X clear` | `c10 X ratio <tok>` | `c10 X dyn` | `c10 X fields` | `c10 del X` -/
 def driverLine (d : DSt) (t : List String) : DSt × String :=
   match t with
   | ["new", x, ch, ratio, reset, vr] =>
@@ -323,6 +340,19 @@ def driverLine (d : DSt) (t : List String) : DSt × String :=
                         deinterleave := 1, interleave := 1 }
     match (create dEng c 12345).1 with
     | some p => (setObj d x p, showObj x p)
+    | none => (d, s!"F {x} none")
+  | ["new", x, ch, ratio, reset, vr, "bad"] =>      -- deferred object whose quality spec the engine will reject
+    let c : Config := { num_channels := nat ch, io_ratio := nat ratio, q_spec := ⟨if nat reset ≠ 0 then resetBit else 0, 99⟩,
+                        io_spec := ⟨0, 1, 0⟩, runtime_spec := 1, control_block := if nat vr ≠ 0 then 5 else 4,
+                        deinterleave := 1, interleave := 1 }
+    match (create dEng c 12345).1 with
+    | some p => (setObj d x p, showObj x p)
+    | none => (d, s!"F {x} none")
+  | [x, "pin"] => match getObj d x with               -- the harness pins the dither seed (time/address derived otherwise)
+    | some p => let p' := { p with seed := 1 }; (setObj d x p', showObj x p')
+    | none => (d, s!"F {x} none")
+  | [x, "setch", n] => match getObj d x with
+    | some p => let p' := (setNumChannels dEng p (nat n)).1; (setObj d x p', showObj x p')
     | none => (d, s!"F {x} none")
   | ["del", x] => ({ objs := d.objs.filter (fun y => y.1 ≠ x) }, "ok")
   | [x, "fields"] => match getObj d x with
